@@ -771,8 +771,15 @@ struct elements_iterator_t : boost::multi::random_accessable<elements_iterator_t
 	template<typename, class> friend struct elements_iterator_t;
 	template<typename, class> friend struct elements_range_t;
 
+	// base points to the first element: iterate over the zero-based version of the layout, so that index bases do not matter
+	template<class L> static constexpr auto zero_based_(L lyt, int /*prefer*/) -> decltype(void(lyt.reindex(0).rotate()), L{lyt}) {
+		for(dimensionality_type dim = 0; dim != L::dimensionality; ++dim) { lyt.reindex(0).rotate(); }
+		return lyt;
+	}
+	template<class L> static constexpr auto zero_based_(L const& lyt, long /*fallback*/) -> L { return lyt; }
+
 	constexpr elements_iterator_t(pointer base, layout_type const& lyt, difference_type n)
-	: base_{base}, l_{lyt}, n_{n}, xs_{l_.extensions()}, ns_{(lyt.num_elements() == 0)?indices_type{}:xs_.from_linear(n)} {}
+	: base_{base}, l_{zero_based_(lyt, 0)}, n_{n}, xs_{l_.extensions()}, ns_{(lyt.num_elements() == 0)?indices_type{}:xs_.from_linear(n)} {}
 
  public:
 	elements_iterator_t() = default;
@@ -915,7 +922,7 @@ struct elements_range_t {
 
 	constexpr auto at_aux_(difference_type n) const -> reference {
 		BOOST_MULTI_ASSERT( ! is_empty() );
-		return base_[std::apply(l_, l_.extensions().from_linear(n))];
+		return begin_aux_()[n];
 	}
 
 	#if defined(__clang__)
